@@ -272,6 +272,7 @@ func (ex *Exec) lazyResolve(l *Lazy) Iface {
 		arr := &Array{E: make([]*Cell, n), Own: o.Own}
 		for i := range arr.E {
 			arr.E[i] = &Cell{V: ex.newLazy(fmt.Sprintf("%s_%d", l.Name, i), l.Depth-1, o), Own: o.Own}
+			arr.OrigE = append(arr.OrigE, arr.E[i].V)
 		}
 		r = Iface{T: tSliceI, V: Slice{Arr: arr, Len: n, Cap: n}}
 	}
